@@ -61,7 +61,8 @@ const curEpoch = 5
 var (
 	cnrMain  = mkCID(0x11)
 	cnrNoise = mkCID(0x22)
-	idPool   = mkIDs()
+	idPool   = mkIDs(false)
+	refPool  = mkIDs(true) // targets of parent / first / associate references: never stored themselves
 	owners   = mkOwners()
 	sums     = [][32]byte{fill32(0xAB, 0), fill32(0xAB, 1), fill32(0x00, 7), fill32(0xFF, 0xFF)}
 	splitIDs = [][]byte{
@@ -95,13 +96,19 @@ func fill32(b, last byte) [32]byte {
 	return r
 }
 
-func mkIDs() []oid.ID {
+func mkIDs(foreign bool) []oid.ID {
 	var res []oid.ID
 	for _, first := range []byte{0x00, 0x01, 0xFF} {
+		if foreign && first == 0x01 {
+			continue
+		}
 		for _, last := range []byte{0x01, 0x02, 0x00, 0xFF} {
 			var id oid.ID
 			id[0] = first
 			id[31] = last
+			if foreign {
+				id[15] = 0x77
+			}
 			if first == 0xFF {
 				for i := 1; i < 31; i++ {
 					id[i] = 0xFF
@@ -179,13 +186,13 @@ func genObject(id oid.ID, cnr cid.ID) *objSpec {
 		add(object.FilterSplitID, sid)
 	}
 	if rnd.chance(40) {
-		f := pick(idPool)
+		f := pick(refPool)
 		o.SetFirstID(f)
 		add(object.FilterFirstSplitObject, f[:])
 	}
-	hasParent := false
+	hasParent := o.HasParent() // any split field set
 	if rnd.chance(30) {
-		p := pick(idPool)
+		p := pick(refPool)
 		o.SetParentID(p)
 		add(object.FilterParentID, p[:])
 		hasParent = true
@@ -212,7 +219,7 @@ func genObject(id oid.ID, cnr cid.ID) *objSpec {
 		add(k, []byte(v))
 	}
 	if rnd.chance(40) {
-		a := pick(idPool)
+		a := pick(refPool)
 		attrs = append(attrs, object.NewAttribute(object.AttributeAssociatedObject, a.EncodeToString()))
 		add(object.AttributeAssociatedObject, a[:])
 	}
@@ -286,9 +293,9 @@ func genCorpus(nObj int) *corpus {
 			must(err)
 			s.Avail = false
 		case r == 2:
+			// a redundant copy stays readable until it is collected
 			_, err := c.db.MarkGarbage(cnrMain, []oid.ID{s.ID}, meta.GarbageMarkRedundant)
 			must(err)
-			s.Avail = false
 		}
 		kept = append(kept, s)
 	}
@@ -297,6 +304,9 @@ func genCorpus(nObj int) *corpus {
 	for _, s := range c.objs {
 		ex, err := c.db.Exists(oid.NewAddress(cnrMain, s.ID), false)
 		s.Exists = err == nil && ex
+		if os.Getenv("VERIF_DEBUG") != "" && s.Exists != s.Avail {
+			fmt.Fprintln(os.Stderr, "avail mismatch", s.ID, s.Avail, ex, err)
+		}
 	}
 	return c
 }
@@ -524,7 +534,7 @@ func tables(c *corpus, qs []querySpec) (enc [][]any, dec [][]any) {
 			return
 		}
 		seenD[text] = true
-		if b, _ := base58.Decode(text); true {
+		if b, err := base58.Decode(text); err == nil {
 			dec = append(dec, []any{0, hx([]byte(text)), hx(b)})
 		}
 		if b, err := hex.DecodeString(text); err == nil {
@@ -536,7 +546,11 @@ func tables(c *corpus, qs []querySpec) (enc [][]any, dec [][]any) {
 	}
 	for _, s := range c.objs {
 		for _, a := range s.Attrs {
-			addEnc(a.V)
+			switch a.K {
+			case object.FilterOwnerID, object.FilterFirstSplitObject, object.FilterParentID, object.AttributeAssociatedObject,
+				object.FilterPayloadChecksum, object.FilterSplitID:
+				addEnc(a.V)
+			}
 		}
 	}
 	for _, q := range qs {
